@@ -769,4 +769,150 @@ theorem no_bp_runs_on_trace (env : Env) (n : Nat) (initial m : Machine) (w : Wor
   subst this
   exact fun hb hx hs hso => iter_no_bp_runs_on env d m w hb hx hs hso
 
+/-! ### T3: the event log of a session -/
+
+/-- Events of a session, in order of occurrence. -/
+inductive Ev where
+  /-- a command was read while the machine stood at `pc` -/
+  | read (c : Command) (pc : Word)
+  /-- the instruction at `a` was executed; `guarded` = the debugger was attached and the breakpoint
+  list in force held a breakpoint at `a` -/
+  | exec (a : Word) (guarded : Bool)
+  deriving DecidableEq, Repr
+
+/-- The events of one iteration: the commands read, then the instruction executed (if any). -/
+def IterRec.events (r : IterRec) : List Ev :=
+  r.reads.map (fun x => Ev.read x.cmd x.pc) ++
+    match r.exec with
+    | some a => [Ev.exec a (r.attached && (bpGet r.bpsAfter a).isSome)]
+    | none => []
+
+def sessionEvents (tr : List IterRec) : List Ev := tr.flatMap IterRec.events
+
+/-- Every guarded execution is immediately preceded by a resuming command read at that address. -/
+def Guarded (evs : List Ev) : Prop :=
+  ∀ pre a post, evs = pre ++ Ev.exec a true :: post →
+    ∃ pre' c, pre = pre' ++ [Ev.read c a] ∧ Resumes c = true
+
+theorem Guarded.nil : Guarded [] := by
+  intro pre a post h
+  have := congrArg List.length h
+  simp at this
+
+theorem Guarded.append {xs ys : List Ev} (hx : Guarded xs) (hy : Guarded ys) : Guarded (xs ++ ys) := by
+  intro pre a post h
+  rcases List.append_eq_append_iff.mp h with ⟨p', h1, h2⟩ | ⟨q, h1, h2⟩
+  · -- pre = xs ++ p', ys = p' ++ exec :: post
+    obtain ⟨pre', c, h3, h4⟩ := hy p' a post h2
+    exact ⟨xs ++ pre', c, by rw [h1, h3, List.append_assoc], h4⟩
+  · -- xs = pre ++ q, exec :: post = q ++ ys
+    cases q with
+    | nil =>
+      simp only [List.nil_append] at h2
+      obtain ⟨pre', c, h3, _⟩ := hy [] a post h2.symm
+      have := congrArg List.length h3
+      simp at this
+    | cons e q' =>
+      simp only [List.cons_append, List.cons.injEq] at h2
+      obtain ⟨rfl, _⟩ := h2
+      exact hx pre a q' h1
+
+theorem guarded_flatMap (tr : List IterRec) (h : ∀ r ∈ tr, Guarded r.events) : Guarded (sessionEvents tr) := by
+  induction tr with
+  | nil => exact Guarded.nil
+  | cons r rs ih =>
+    unfold sessionEvents
+    rw [List.flatMap_cons]
+    exact (h r List.mem_cons_self).append (ih fun r' hr' => h r' (List.mem_cons_of_mem _ hr'))
+
+/-- The events of one iteration are guarded as soon as the iteration satisfies T1. -/
+theorem events_guarded (r : IterRec)
+    (h : r.attached = true → ∀ a, r.exec = some a → (bpGet r.bpsAfter a).isSome →
+      ∃ c, r.reads.getLast? = some ⟨c, a⟩ ∧ Resumes c = true) : Guarded r.events := by
+  intro pre a post he
+  unfold IterRec.events at he
+  cases hx : r.exec with
+  | none =>
+    rw [hx] at he
+    simp only [List.append_nil] at he
+    have : Ev.exec a true ∈ r.reads.map (fun x => Ev.read x.cmd x.pc) := by rw [he]; simp
+    simp at this
+  | some b =>
+    rw [hx] at he
+    simp only at he
+    -- the only `exec` event is the last one
+    rcases List.append_eq_append_iff.mp he with ⟨p', h1, h2⟩ | ⟨q, h1, h2⟩
+    · -- pre = reads ++ p', [exec b g] = p' ++ exec a true :: post
+      cases p' with
+      | nil =>
+        simp only [List.nil_append, List.cons.injEq, Ev.exec.injEq] at h2
+        obtain ⟨⟨rfl, hg⟩, _⟩ := h2
+        simp only [Bool.and_eq_true] at hg
+        obtain ⟨c, hl, hr⟩ := h hg.1 b hx hg.2
+        obtain ⟨ini, hini⟩ : ∃ ini, r.reads = ini ++ [⟨c, b⟩] := by
+          have := List.getLast?_eq_some_iff.mp hl
+          obtain ⟨ys, hys⟩ := this
+          exact ⟨ys, hys⟩
+        refine ⟨ini.map (fun x => Ev.read x.cmd x.pc), c, ?_, hr⟩
+        rw [h1, hini]; simp
+      | cons e p'' =>
+        have := congrArg List.length h2
+        simp at this
+    · -- reads = pre ++ q, exec a true :: post = q ++ [exec b g]
+      cases q with
+      | nil =>
+        -- same as above with p' = []
+        simp only [List.nil_append, List.cons.injEq, Ev.exec.injEq] at h2
+        obtain ⟨⟨rfl, hg⟩, _⟩ := h2
+        have hg := hg.symm
+        simp only [Bool.and_eq_true] at hg
+        obtain ⟨c, hl, hr⟩ := h hg.1 a hx hg.2
+        obtain ⟨ini, hini⟩ : ∃ ini, r.reads = ini ++ [⟨c, a⟩] := by
+          have := List.getLast?_eq_some_iff.mp hl
+          obtain ⟨ys, hys⟩ := this
+          exact ⟨ys, hys⟩
+        refine ⟨ini.map (fun x => Ev.read x.cmd x.pc), c, ?_, hr⟩
+        simp only [List.append_nil] at h1
+        rw [← h1, hini]; simp
+      | cons e q' =>
+        simp only [List.cons_append, List.cons.injEq] at h2
+        obtain ⟨rfl, _⟩ := h2
+        have : Ev.exec a true ∈ r.reads.map (fun x => Ev.read x.cmd x.pc) := by rw [h1]; simp
+        simp at this
+
+/-- **C11 (T3a) — every guarded execution is immediately preceded by a resuming command issued
+while paused at that address.** In the event log of any session, an execution of the instruction
+at `a` that happened with the debugger attached and a breakpoint at `a` in force is immediately
+preceded by the reading of a resuming command at PC = `a`. -/
+theorem bp_exec_preceded_by_resume (env : Env) (n : Nat) (initial m : Machine) (w : World)
+    (bpsRel : List Word) (cmds : List Command) :
+    Guarded (sessionEvents (runTrace env n true (newDbg initial bpsRel cmds) m w)) :=
+  guarded_flatMap _ fun r hr =>
+    events_guarded r (bp_pause_before_exec_trace env n initial m w bpsRel cmds r hr)
+
+/-- **C11 (T3) — the breakpoint fires at every arrival.** In the event log of any session, two
+consecutive executions of the instruction at `a` — the second one with the debugger attached and
+a breakpoint at `a` in force — are separated by at least one command read while the machine was
+paused at `a`; the last event between them is the resuming command.  This includes the one-
+instruction loop `a: BR a`, where nothing else lies between two arrivals. -/
+theorem bp_fires_every_arrival (env : Env) (n : Nat) (initial m : Machine) (w : World)
+    (bpsRel : List Word) (cmds : List Command) (pre mid post : List Ev) (a : Word) (g : Bool)
+    (h : sessionEvents (runTrace env n true (newDbg initial bpsRel cmds) m w) =
+      pre ++ Ev.exec a g :: mid ++ Ev.exec a true :: post) :
+    ∃ mid' c, mid = mid' ++ [Ev.read c a] ∧ Resumes c = true := by
+  have hG := bp_exec_preceded_by_resume env n initial m w bpsRel cmds
+  obtain ⟨pre', c, h1, h2⟩ := hG (pre ++ Ev.exec a g :: mid) a post (by rw [h])
+  -- the last element of `pre ++ exec a g :: mid` is `read c a`, so `mid` is not empty
+  rcases List.eq_nil_or_concat mid with rfl | ⟨mid', e, rfl⟩
+  · exfalso
+    have := congrArg List.getLast? h1
+    simp at this
+  · refine ⟨mid', c, ?_, h2⟩
+    have := congrArg List.getLast? h1
+    rw [List.concat_eq_append,
+      show pre ++ Ev.exec a g :: (mid' ++ [e]) = (pre ++ Ev.exec a g :: mid') ++ [e] by simp] at this
+    simp only [List.getLast?_append, List.getLast?_singleton, Option.some_or] at this
+    simp only [Option.some.injEq] at this
+    rw [List.concat_eq_append, this]
+
 end Lace.C11
